@@ -191,12 +191,18 @@ theorem append_valueError_iff {self next : Msg} {b : Blk} :
 
 /-- the two ways a payload length contradicts a block size make the size test fail -/
 theorem sizeOk_false_of_contradiction {b : Blk} {len : Nat}
-    (hsize : (b.more = true ∧ len ≠ b.size ∧ ¬ (b.szx = 7 ∧ len % b.size = 0)) ∨
+    (hsize : (b.more = true ∧ len ≠ b.size ∧ ¬ (b.szx = 7 ∧ len % b.size = 0 ∧ 0 < len)) ∨
              (b.more = false ∧ b.szx ≠ 7 ∧ b.size < len)) : sizeOk b len = false := by
   rcases hsize with ⟨h1, h2, h3⟩ | ⟨h1, h2, h3⟩
-  · simp only [sizeOk, h1, ↓reduceIte, Bool.or_eq_false_iff, beq_eq_false_iff_ne,
-      ne_eq, Bool.and_eq_false_imp, beq_iff_eq]
-    exact ⟨h2, fun h7 h => h3 ⟨h7, h⟩⟩
+  · cases hs : sizeOk b len with
+    | false => rfl
+    | true =>
+      exfalso
+      simp only [sizeOk, h1, ↓reduceIte, Bool.or_eq_true, beq_iff_eq, Bool.and_eq_true,
+        decide_eq_true_eq] at hs
+      rcases hs with hs | ⟨⟨h7, hmod⟩, hpos⟩
+      · exact h2 hs
+      · exact h3 ⟨h7, hmod, hpos⟩
   · simp only [sizeOk, h1, Bool.false_eq_true, ↓reduceIte, Bool.or_eq_false_iff,
       beq_eq_false_iff_ne, ne_eq, decide_eq_false_iff_not]
     exact ⟨h2, by omega⟩
